@@ -51,9 +51,14 @@ def cases(rng, tier, shard, nshards):
                 good = False
         else:
             v, kind = bad_value(rng)
+        sib = None
+        if good and rng.random() < 0.25:
+            # a clone of the line got a value of another class under the same tag name before
+            k2 = rng.choice([k for k in KINDS if k != kind])
+            sib = {"kind": k2, "value": V.py_value(rng, k2)}
         yield {"kind": kind, "value": v, "good": good, "how": rng.choice(["set", "attr", "datatype"]),
                "carrier": rng.randrange(len(CARRIERS)), "vlevel": rng.choice([0, 1, 2, 3]),
-               "tag": V.tagname(rng)}
+               "tag": V.tagname(rng), "sibling": sib}
 
 
 def bad_value(rng):
@@ -156,6 +161,13 @@ def run(case, ctx):
     if v is None:
         ctx.count("rejected_at_value_construction")
         return
+    if case.get("sibling"):
+        sv = materialise(case["sibling"]["kind"], case["sibling"]["value"])
+        if sv is not None:
+            sib = call(ctx, "clone", line.clone)
+            if sib.ok:
+                call(ctx, "set(tag) on a clone", sib.value.set, tag, sv)
+                ctx.count("sibling_assignments")
     dt_forced = None
     how = case["how"]
     if kind == "char":
